@@ -29,6 +29,7 @@ def build_registry(world=None) -> Registry:
     c_runner.register_signals(reg)
     c_inject.register(reg)
     c_inject.register2(reg)
+    c_inject.register3(reg)
     c_cli.register(reg)
     c_streams.register(reg)
     c_streams.register2(reg)
